@@ -3,6 +3,7 @@
 package vh
 
 import (
+	"sync/atomic"
 	"bytes"
 	"crypto/ecdsa"
 	"encoding/base64"
@@ -191,8 +192,20 @@ func init() {
 	// window (virtual when a check turns the virtual clock on, the wall clock otherwise)
 	badgerdb.VerifNow = vsched.Now
 	// ... and the moment between a transaction's closure and its commit is a scheduling point
-	badgerdb.VerifBeforeCommit = func() { vsched.Yield("badger:before-commit") }
+	badgerdb.VerifBeforeCommit = func() error {
+		vsched.Yield("badger:before-commit")
+		if n := injectedConflicts.Load(); n > 0 && injectedConflicts.CompareAndSwap(n, n-1) {
+			return badgerdb.ErrConflict // this transaction loses its commit race (injected)
+		}
+		return nil
+	}
 }
+
+var injectedConflicts atomic.Int64
+
+// InjectBadgerConflicts makes the next n read-write transactions of the badger library fail with
+// ErrConflict at commit time, as they would after losing n commit races in a row.
+func InjectBadgerConflicts(n int) { injectedConflicts.Store(int64(n)) }
 
 var badgerDBType = reflect.TypeOf((*badgerdb.DB)(nil))
 
